@@ -29,7 +29,7 @@ func AllSizes() [][3]int {
 
 // SBCounts are the numbers of distinct labels per 8x8x8 sub-block that hit every index bit width
 // (0 bits for 1 label up to 9 bits for 512) on both sides of each power of two.
-var SBCounts = []int{1, 2, 3, 4, 5, 8, 9, 16, 17, 255, 256, 257, 511, 512}
+var SBCounts = []int{1, 2, 3, 4, 5, 8, 9, 16, 17, 32, 33, 64, 65, 128, 129, 255, 256, 257, 511, 512}
 
 // Special labels at the edges of the 64-bit range.
 var Special = []uint64{0, 1, 1<<32 - 1, 1 << 32, 1 << 63, ^uint64(0)}
@@ -258,7 +258,7 @@ func Gen(r *rand.Rand, size [3]int, kind string) *Block {
 			}
 			k := SBCounts[r.Intn(len(SBCounts))]
 			if r.Intn(3) > 0 {
-				k = SBCounts[r.Intn(7)] // favour the small widths
+				k = SBCounts[r.Intn(9)] // favour the small widths
 			}
 			fillSB(r, a, size, sx, sy, sz, distinct(r, k, pool, share))
 		}
